@@ -676,12 +676,12 @@ def flatten_comparator(operator, x, y, mem):
                 or operator == '!='), operator
     elif operator in {'<', '<=', '=<', '>=', '>'}:
         swap = False
-        if operator == '<=':
+        if operator == '<=' or operator == '=<':
             negate = True
             swap = True
         elif operator == '>':
             swap = True
-        elif operator == '>=' or operator == '=<':
+        elif operator == '>=':
             negate = True
         else:
             assert operator == '<', operator
